@@ -175,6 +175,16 @@ func genC16(concurrent bool) func(rng *Rng, sc *Scenario) {
 		if rng.Chance(1, 4) {
 			prog = append(prog, RegOp{Op: "route", Via: "verb", Methods: []string{"POST"}, Path: "/zz/{id}", H: "h1"})
 		}
+		if strings.Contains(op.Path, "{shop}") && rng.Chance(1, 2) {
+			// many more GET routes in the resource's first-segment bucket, registered after it, with longer and shorter static prefixes
+			for i, n := 0, rng.Range(12, 20); i < n; i++ {
+				p := fmt.Sprintf("/shops/{shop}/x%d/{a}", i)
+				if i%3 == 0 {
+					p = fmt.Sprintf("/shops/static%d/{a}", i)
+				}
+				prog = append(prog, RegOp{Op: "route", Via: "verb", Methods: []string{"GET"}, Path: p, H: fmt.Sprintf("h%d", 10+i)})
+			}
+		}
 		sc.Program = prog
 		sc.Options.NotAllowed = rng.Chance(1, 2)
 		if rng.Chance(1, 3) {
